@@ -51,6 +51,16 @@ CHECKS.update({
          'Same exploration as C18; in every distinct state the fate of each admitted transaction (committed / retrievable by hash as itself / superseded / evicted by the age rule), the pending-work report and the pending nonce per account are compared with the model, and the drain continuation (commit outstanding, then generate+commit until empty) must include every ready transaction.',
          'as C18', '5 C19'),
 })
+CHECKS.update({
+ 'C07': ('probemc', 'model_checking',
+         'exhaustive product pre-state x failure probe x block position on the real executor, each case decided differentially against a replica running the same block without the probe',
+         'Pre-states {post-prelude, open proposal with a vote, open IBTP; audit off/on} x 35 failure-oriented probes (contract errors after reads/writes, panics inside contracts, reflection arity/type errors, unknown method/contract/vm type, empty/garbage payload, rejected proof, wrong index, malformed ids, illegal receipt transition, IBTP failing after begin, bad signature, balance below fee for transfer/BVM/IBTP, XVM failures, unauthorised governance calls) x positions {alone, first, middle, last, after a warm-up of valid txs on the same contracts}; a FAILED receipt must leave only sender/admin account records different and no delivery entry; read-only execution of every probe must change nothing. Cases run in worker subprocesses (crash attribution).',
+         'memkv for goleveldb; gas price 50000; EVM transactions not in the probe set', '5 C07'),
+ 'C17': ('probemc', 'model_checking',
+         'exhaustive enumeration of the reflected dispatch surface x unauthorised callers x typed argument vectors x pre-states on the real executor, state compared before/after each call',
+         'All 572 methods reachable through the VM dispatcher (reflection over the real registry, incl. methods promoted from embedded stubs/managers) x callers {outsider, admin of another appchain, (node account), governance admin for internal entry points} x 6 (thorough 16) argument vectors built from ids existing in the pre-state x 2 (thorough 4) pre-states; internal entry points must FAIL, and no call outside the reviewed public list may change state beyond caller nonce/fee or produce delivery entries.',
+         'classification tables c17Internal / c17Public are part of the trusted base (harness/checks/c17.go)', '5 C17'),
+})
 REASON_WIP = 'check not built yet (work in progress; see DESIGN.md section 10)'
 def main():
     checks = []
@@ -84,6 +94,7 @@ def main():
             {'name': 'chainmc', 'path': 'harness/checks/c09.go', 'serves_properties': ['C09', 'C14'], 'kind_free_text': 'explicit-state BFS over chain histories'},
             {'name': 'crashmc', 'path': 'harness/checks/c11.go', 'serves_properties': ['C11'], 'kind_free_text': 'crash-state enumeration from recorded writes'},
             {'name': 'poolmc', 'path': 'harness/checks/pool.go', 'serves_properties': ['C18', 'C19'], 'kind_free_text': 'explicit-state BFS over the real mempool'},
+            {'name': 'probemc', 'path': 'harness/checks/probe.go', 'serves_properties': ['C07', 'C17'], 'kind_free_text': 'exhaustive probe product with differential oracle, sharded over worker subprocesses'},
             {'name': 'enum', 'path': 'harness/checks/c10.go', 'serves_properties': ['C10'], 'kind_free_text': 'bounded-exhaustive enumeration'},
         ],
         'checks': checks,
